@@ -157,16 +157,20 @@ Theorem C06_target_pc_panics_iff : forall pc initial target,
   in_i64 (usize_as_i64 pc + (usize_as_i64 target - usize_as_i64 initial)) = false.
 Proof. exact target_pc_panics_iff. Qed.
 Print Assumptions C06_target_pc_panics_iff.
+Theorem C06_source_map_add_panics_iff : forall tpc len, source_map_add tpc len = SPanic <-> two64 <= tpc + len.
+Proof. exact source_map_add_panics_iff. Qed.
+Print Assumptions C06_source_map_add_panics_iff.
 Theorem C06_pc_arithmetic_guarded : forall pc initial target len,
-  Known_pc_out_of_range pc = false -> Known_pc_out_of_range initial = false -> Known_pc_out_of_range target = false ->
-  0 <= len <= 4294967296 ->
-  segment_emit pc len <> SPanic /\ pc_add pc len <> SPanic /\ target_pc pc initial target <> SPanic.
+  Known_pc_out_of_range pc initial target = false -> 0 <= len <= 4294967296 ->
+  segment_emit pc len <> SPanic /\ pc_add pc len <> SPanic /\
+  exists t, target_pc pc initial target = SOk t /\ source_map_add t len <> SPanic.
 Proof. exact pc_arithmetic_guarded. Qed.
 Print Assumptions C06_pc_arithmetic_guarded.
-(* `* = -1` then one byte; a pc of 2^63-1 with a relocated segment *)
+(* `* = -1` then one byte; a pc of 2^63-1 with a relocated segment; a relocated segment whose pc is moved below its start *)
 Theorem C06_pc_arithmetic_refuted :
-  segment_emit (pc_from_i64 (-1)) 1 = SPanic /\ Known_pc_out_of_range (pc_from_i64 (-1)) = true /\
-  target_pc (pc_from_i64 i64_max) 0 1 = SPanic.
+  segment_emit (pc_from_i64 (-1)) 1 = SPanic /\ Known_pc_out_of_range (pc_from_i64 (-1)) 49152 49152 = true /\
+  target_pc (pc_from_i64 i64_max) 0 1 = SPanic /\
+  (exists t, target_pc 4096 8192 0 = SOk t /\ source_map_add t 8192 = SPanic) /\ Known_pc_out_of_range 4096 8192 0 = true.
 Proof. exact pc_arithmetic_refuted. Qed.
 Print Assumptions C06_pc_arithmetic_refuted.
 
@@ -178,8 +182,7 @@ Theorem C06_stmt_data_total : forall en pc size e, 0 <= pc <= 65536 -> 0 <= size
 Proof. exact stmt_data_total. Qed.
 Print Assumptions C06_stmt_data_total.
 Theorem C06_stmt_pc_guarded : forall en initial target e v,
-  eval en e = EVal (Some (SNum v)) ->
-  Known_pc_out_of_range (pc_from_i64 v) = false -> Known_pc_out_of_range initial = false -> Known_pc_out_of_range target = false ->
+  eval en e = EVal (Some (SNum v)) -> Known_pc_out_of_range (pc_from_i64 v) initial target = false ->
   stmt_pc_then_byte en initial target e <> RPanic.
 Proof. exact stmt_pc_guarded. Qed.
 Print Assumptions C06_stmt_pc_guarded.
@@ -213,6 +216,20 @@ Theorem C06_nested_dummy_segment_ok : emit_after_nested_dummy = SOk tt.
 Proof. exact nested_dummy_segment_ok. Qed.
 Print Assumptions C06_nested_dummy_segment_ok.
 
+(* ================================================================== bank padding *)
+Theorem C06_bank_padding_total : forall size len fill, bank_padding size len fill <> SPanic.
+Proof. exact bank_padding_total. Qed.
+Print Assumptions C06_bank_padding_total.
+(* outside the known class the padding held in memory is at most 2^30 bytes *)
+Theorem C06_bank_padding_guarded : forall size len fill n, 0 <= len -> Known_bank_size_huge size = false ->
+  bank_padding size len fill = SOk n -> 0 <= n <= 1073741824.
+Proof. exact bank_padding_guarded. Qed.
+Print Assumptions C06_bank_padding_guarded.
+(* a terabyte of padding is requested as one allocation *)
+Theorem C06_bank_padding_refuted : bank_padding 1099511627776 1 true = SOk 1099511627775 /\ Known_bank_size_huge 1099511627776 = true.
+Proof. exact bank_padding_refuted. Qed.
+Print Assumptions C06_bank_padding_refuted.
+
 (* non-vacuity *)
 Example C06_example_align : align_padding 49153 256 = SOk 255 /\ align_padding 49153 0 = SDiag diag_align_not_positive /\
                             align_padding 49153 1099511627776 = SOk 65537.
@@ -220,6 +237,6 @@ Proof. repeat split; vm_compute; reflexivity. Qed.
 Example C06_example_overflow : apply_i64 Add i64_max 1 = Ovf /\ apply_i64 Shl 1 64 = Ovf /\ apply_i64 Div i64_min (-1) = Ovf /\
                                apply_i64 Add 1 2 = Val 3.
 Proof. repeat split; vm_compute; reflexivity. Qed.
-Example C06_example_guard : Known_pc_out_of_range 49152 = false /\ Known_loop_count_huge 1000 = false /\
+Example C06_example_guard : Known_pc_out_of_range 49152 49152 49152 = false /\ Known_loop_count_huge 1000 = false /\
                             Known_macro_recursion [[1%nat; 2%nat]; [2%nat]; []] = false.
 Proof. repeat split; vm_compute; reflexivity. Qed.
